@@ -123,7 +123,9 @@ mutual
     | _ :: _, [], _ => False
     | f :: fs, v :: vs, prev => WFfv f v prev ∧ WFflds fs vs (prev ++ [normFV f v])
   def WFfv (f : Fld) : FV → List FV → Prop
-    | .one v, _ => f.slice = false ∧ f.ignored = false ∧ WFv f.ty v
+    -- an optional field still holding its Go zero value is left out by Encode whatever that zero value looks like inside
+    -- (the zero Authentication of a Request without credentials has a nil Credential Value, which its own type "requires")
+    | .one v, _ => f.slice = false ∧ f.ignored = false ∧ ((f.required = false ∧ FV.one v = zeroFld f) ∨ WFv f.ty v)
     | .many vs, _ => f.slice = true ∧ f.ignored = false ∧ (f.required = true → vs ≠ []) ∧ WFmany f.ty vs
     | .dyn .nil, _ => f.slice = false ∧ f.ignored = false ∧ f.required = false ∧ ∃ sel table, f.ty = .dyn sel table
     | .dyn (.val _ ty v), prev =>
